@@ -399,8 +399,14 @@ impl MqttShared {
     fn pkt_ack_inner(&self, pkt: Ack) -> Result<(), error::ProtocolError> {
         let mut queues = self.queues.borrow_mut();
 
-        // check ack order
-        if let Some((idx, tx, tp)) = queues.inflight.pop_front() {
+        // check ack order; PUBCOMP answers PUBREL and is ordered among PUBCOMPs only,
+        // it is not ordered against PUBACK/PUBREC/SUBACK/UNSUBACK
+        let complete = matches!(pkt, Ack::Complete(_));
+        let pos = queues
+            .inflight
+            .iter()
+            .position(|item| matches!(item.2, AckType::Complete) == complete);
+        if let Some((idx, tx, tp)) = pos.and_then(|pos| queues.inflight.remove(pos)) {
             if idx != pkt.packet_id() {
                 log::trace!(
                     "MQTT protocol error, packet_id order does not match, expected {}, got: {}",
